@@ -14,6 +14,17 @@ RULE = ('operation histories over 1-4 simulated worker processes (values.MultiPr
         'ties/negatives/-0.0 plus a NaN/Inf stream, scripted set-times with ties, mark_process_dead and pid reuse at arbitrary '
         'points (also striking in the MIDDLE of a scrape: after the collector listed the directory, before it read the files), Gauge.set_to_current_time, falsy identities 0 and empty string, collect() and merge(permuted file list) at arbitrary points; non-trivial = at least two pids wrote files and '
         'at least one collection saw a gauge or histogram series; distinct by history; '
+        'label names drawn on BOTH sides of the bucket label le in sorted order (a, k, l, A, LE, Le, _x, l_e, lEz | le_, le0, lea, lf, method, '
+        'path, status, z), 1-3 per metric in arbitrary declaration order, several label sets per histogram; every sample must carry '
+        'exactly the declared label names (+ le on buckets, + pid on per-process gauges); '
+        'a quarter of the random histories (and a deterministic slice over every type and gauge mode) run on a TREE of REAL '
+        'processes: worker 0 constructs and updates metrics, [fork, p, w] makes worker p os.fork() worker w at an arbitrary '
+        'point (w inherits the metric objects, the value closure and the open mappings), forks of forks included; the forked '
+        'worker\'s FIRST operation is mostly one that constructs value objects - a metric new to it whose type/mode file its '
+        'parent has open, or a new labels() child - sometimes after the parent or a sibling has gone on writing; the expected '
+        'collection is computed per worker history (a forked worker holds every inherited series at 0 from its first '
+        'value-reaching operation on); multi-history tree cases are replayed through model/MultiFork.v (fork steps of c08h_run) '
+        'and the directories compared file by file; '
         'a fifth of the random histories are MULTI-HISTORY cases: every worker constructs the whole catalog (one declaration per '
         'name) when it starts, and the complete history - starts, calls, mark_process_dead, pid reuse - is replayed through the '
         'extracted multi-process model (model/MultiHist.v, command c08h_run): the model directory is compared file by file, '
@@ -31,10 +42,16 @@ TRUSTED = ['float + < == of the platform (IEEE binary64; OCaml floats in the dri
            'props/C08h.v (worker histories): Section hypotheses FLT_ne (a < b implies b != a; used as 0.0 < t implies t != 0.0), '
            'FLT_trans and FL4 (integer-valued doubles below 2^53 add exactly) for the histogram bucket theorem only; bounds_not_nan; '
            'the theorems read the files in the model directory order (creation order), the real order is whatever glob returns: '
-           'the multi-history stream therefore compares DIRECTORIES exactly and collections up to the summation order tolerance']
+           'the multi-history stream therefore compares DIRECTORIES exactly and collections up to the summation order tolerance',
+           'props/C08f.v (histories with forks, model/MultiFork.v): no float law beyond C08h\'s; the re-initialisation after a fork '
+           'lists the entries of one file family by family in the model and in value-creation order in values.py: the fork stream '
+           'compares the entries of each file as a set; os.fork() gives the child a copy of the closure and MAP_SHARED mappings of '
+           'the parent\'s files (observed on the real processes, not modelled: the model states that nothing is written through them)']
 ASSUMPTIONS = ['one multiprocess mode, one type and one help text per metric name across workers (the registry/metric API guarantees '
                'nothing else is meaningful); no user label named pid or le',
                'a worker marked dead issues no further operations (its pid may be reused by a new worker)',
+               'process trees: a forked worker is ended (and marked dead) only when it has no running worker of its own; no '
+               'remove()/clear() (values.py keeps the value objects of removed children and would re-initialise them after a fork)',
                'mostrecent series that were never set, or whose greatest set-time is shared by different values, are not compared '
                '(the statement does not fix them); counted in the evidence as mr_ambiguous']
 import os as _os
@@ -48,6 +65,26 @@ EXACT = [0.0, 1.0, 1.0, 2.0, 0.5, 0.25, 3.0, 7.5, 100.0, 1048576.0, 0.125]
 GVALS = EXACT + [-1.0, -1.0, -0.0, -2.5, -100.0, 5.0, 5.0]
 WILD = [float('nan'), float('inf'), float('-inf'), 0.1, 0.3, 1e-3, 2.675]
 BUCKETS = [[1.0, 2.5], [1.0, 5.0], [0.5, 1.0, float('inf')], [-1.0, 0.0, 1.0], [1.0, 2.0, 1e6]]
+# label names on BOTH sides of the bucket label `le` in the order sorted() gives label pairs (code points): capitalised
+# names and `_x` sort before every lower-case name; `l` is a prefix of le; le_, le0, lea, lf, method, path, z sort after it
+LNAMES_BEFORE = ['a', 'b', 'k', 'l', 'A', 'LE', 'Le', 'M', 'Z', '_x', 'code', 'l_e', 'ld', 'lEz']
+LNAMES_AFTER = ['le_', 'le0', 'lea', 'lf', 'm', 'method', 'path', 'status', 'z']
+LNAMES = LNAMES_BEFORE + LNAMES_AFTER
+
+
+def label_names(rng, empty=0.35, most=3):
+    """declared label names: none, or 1..most distinct names in an arbitrary declaration order, at least half of the time
+    with a name on each side of `le`"""
+    if rng.random() < empty:
+        return []
+    n = rng.randrange(1, most + 1)
+    if n >= 2 and rng.random() < 0.6:
+        names = [rng.choice(LNAMES_BEFORE), rng.choice(LNAMES_AFTER)] + rng.sample(LNAMES, n - 2)
+        names = list(dict.fromkeys(names))
+    else:
+        names = rng.sample(LNAMES, n)
+    rng.shuffle(names)
+    return names
 
 
 def catalog(rng):
@@ -58,17 +95,17 @@ def catalog(rng):
         d['id'] = len(cat)
         cat.append(d)
     add(kind='counter', name='c0', help='counter zero', labelnames=[])
-    add(kind='counter', name='c_lab', help='counter "lab"\nline', labelnames=['a'])
+    add(kind='counter', name='c_lab', help='counter "lab"\nline', labelnames=label_names(rng, empty=0.0, most=2))
     add(kind='summary', name='s0', help='summary', labelnames=[])
     if rng.random() < 0.5:
-        add(kind='summary', name='s_lab', help='summary lab', labelnames=['a', 'b'])
+        add(kind='summary', name='s_lab', help='summary lab', labelnames=label_names(rng, empty=0.0))
     b1, b2 = rng.sample(BUCKETS, 2)
-    ln = rng.choice([[], ['a']])
+    ln = label_names(rng, empty=0.25)
     add(kind='histogram', name='h0', help='histo', labelnames=ln, buckets=b1)
     add(kind='histogram', name='h0', help='histo', labelnames=ln, buckets=b2 if rng.random() < 0.4 else b1)
     for i, mode in enumerate(rng.sample(L.MODES, rng.randrange(2, 5))):
         add(kind='gauge', name='g%d_%s' % (i, mode[:3]), help='gauge %s' % mode, mode=mode,
-            labelnames=rng.choice([[], [], ['a'], ['b', 'a']]))
+            labelnames=label_names(rng, empty=0.5, most=2))
     return cat
 
 
@@ -163,16 +200,187 @@ def gen_case(rng, nworkers=None, nops=None, wild=False, focus=None):
     return {'metrics': cat, 'ops': ops}
 
 
+
+# ---------------- process trees: real forks of processes that already hold metric objects ----------------
+def tree_catalog(rng, focus=None):
+    """the catalog plus a TWIN of every type / gauge mode in it, so that a forked process can construct a metric that is new
+    to it while the file of that type (and mode) is already open in the process it was forked from"""
+    cat = catalog(rng)
+    if focus is not None:
+        cat.append(dict(id=len(cat), kind='gauge', name='gf', help='focus', mode=focus, labelnames=label_names(rng, empty=0.4, most=2)))
+    seen = set()
+    for d in list(cat):
+        k = (d['kind'], d.get('mode'))
+        if k in seen:
+            continue
+        seen.add(k)
+        t = dict(d, id=len(cat), name=d['name'] + '_t', help=d['help'] + ' twin', labelnames=label_names(rng, empty=0.5, most=2))
+        cat.append(t)
+    return cat
+
+
+def _metric_ops(rng, cat, made, w, clock, vals, amts, d=None, lvs=None, bare=False):
+    """-> the operations (a construction when the process does not hold the metric yet, then mostly an update) worker w
+    performs next on metric d (default: any)"""
+    out = []
+    if d is None:
+        d = rng.choice(cat)
+    if made.get(d['name'], d['id']) != d['id']:
+        d = cat[made[d['name']]]
+    if d['name'] not in made:
+        made[d['name']] = d['id']
+        out.append(['new', w, d['id']])
+        if bare or rng.random() < 0.25:
+            return out
+    pool = lvs or (LVS[:3] if rng.random() < 0.8 else LVS)
+    lv = [rng.choice(pool) for _ in d['labelnames']]
+    k = d['kind']
+    r2 = rng.random()
+    if d['labelnames'] and r2 < 0.15:
+        out.append(['child', w, d['id'], lv])
+    elif k == 'counter':
+        out.append(['inc', w, d['id'], lv, abs(rng.choice(amts))])
+    elif k in ('summary', 'histogram'):
+        out.append(['obs', w, d['id'], lv, rng.choice(vals)])
+    elif d['mode'] in ('mostrecent', 'livemostrecent') or r2 < 0.6:
+        clock[0] = max(1.0, clock[0] + rng.choice([0.0, 0.0, 1.0, 1.0, 0.5, -1.0, -3.0]))
+        if rng.random() < 0.15:
+            out.append(['settime', w, d['id'], lv, clock[0]])
+        else:
+            out.append(['set', w, d['id'], lv, rng.choice(vals), clock[0]])
+    elif r2 < 0.8:
+        out.append(['inc', w, d['id'], lv, rng.choice(vals)])
+    else:
+        out.append(['dec', w, d['id'], lv, rng.choice(vals)])
+    return out
+
+
+def gen_tree_case(rng, focus=None, nops=None, wild=False):
+    """a history over a TREE of real processes: worker 0 constructs and updates metrics, ['fork', p, w] forks worker w
+    from worker p at an arbitrary point - w inherits p's metric objects - and w's FIRST operation is mostly one that
+    constructs value objects: a metric new to it of a type/mode whose file its parent has open, or a new labels() child"""
+    cat = tree_catalog(rng, focus)
+    nops = nops or rng.randrange(8, 40)
+    vals = (GVALS + WILD) if wild else GVALS
+    amts = (EXACT + WILD) if wild else EXACT
+    clock = [1000.0]
+    ops = [['spawn', 0, 0]]
+    made = {0: {}}
+    parent = {0: None}
+    fresh = set()
+    nextw = 1
+    focus_d = next((d for d in cat if d['name'] == 'gf'), None)
+
+    def pick(w):
+        if focus_d is not None and rng.random() < 0.5:
+            return focus_d
+        return None
+
+    def first_ops(w):
+        """the first operation(s) of a freshly forked worker"""
+        r = rng.random()
+        held = [cat[i] for i in made[w].values()]
+        if r < 0.4:
+            # a metric new to this process whose type (and mode) its parent already uses
+            kinds = {(d['kind'], d.get('mode')) for d in held}
+            cands = [d for d in cat if d['name'] not in made[w] and (d['kind'], d.get('mode')) in kinds]
+            if cands:
+                return _metric_ops(rng, cat, made[w], w, clock, vals, amts, d=rng.choice(cands))
+        if r < 0.85:
+            # a new labels() child of an inherited metric
+            cands = [d for d in held if d['labelnames']]
+            if focus_d is not None and focus_d in cands and rng.random() < 0.6:
+                cands = [focus_d]
+            if cands:
+                return _metric_ops(rng, cat, made[w], w, clock, vals, amts, d=rng.choice(cands), lvs=LVS + ['w%d' % w, 'w%d' % w])
+        return _metric_ops(rng, cat, made[w], w, clock, vals, amts, d=pick(w))
+
+    for _ in range(rng.randrange(2, 9)):        # the root first builds up some state
+        ops.extend(_metric_ops(rng, cat, made[0], 0, clock, vals, amts, d=pick(0)))
+    for _ in range(nops):
+        r = rng.random()
+        alive = sorted(parent)
+        if r < 0.16 and len(alive) < 5 and nextw < 7:
+            p = rng.choice(alive)
+            w = nextw
+            nextw += 1
+            ops.append(['fork', p, w])
+            parent[w] = p
+            made[w] = dict(made[p])
+            fresh.add(w)
+            if rng.random() < 0.7:
+                fresh.discard(w)
+                ops.extend(first_ops(w))
+            continue
+        if r < 0.28:
+            ops.append(['collect'] if rng.random() < 0.8 else ['merge', rng.randrange(1000)])
+            continue
+        if r < 0.34:
+            leaves = [w for w in alive if w != 0 and w not in parent.values()]
+            if leaves:
+                w = rng.choice(leaves)
+                del parent[w]
+                fresh.discard(w)
+                ops.append(['dead', w])
+            continue
+        w = rng.choice(alive)
+        if w in fresh:
+            fresh.discard(w)
+            ops.extend(first_ops(w))
+        else:
+            ops.extend(_metric_ops(rng, cat, made[w], w, clock, vals, amts, d=pick(w)))
+    ops.append(['collect'])
+    return {'metrics': cat, 'ops': ops, 'tree': True}
+
+
+def tree_slice():
+    """every type and every gauge mode: the root updates m{x}, forks; the forked worker's first operation is (a) an update
+    of the new child m{y}, (b) labels(y) alone, (c) the construction of a metric new to it of the same type and mode, (d)
+    an update of the inherited child m{x}; with and without an operation of the root between the fork and that operation;
+    then both go on, everything is collected, the worker is marked dead, everything is collected again"""
+    kinds = [dict(kind='counter', help='cc'), dict(kind='summary', help='ss'),
+             dict(kind='histogram', help='hh', buckets=[1.0, 2.5])] + \
+            [dict(kind='gauge', help='g ' + m, mode=m) for m in L.MODES]
+    for d0 in kinds:
+        ln = ['role'] if d0['kind'] != 'histogram' else ['code', 'method']
+        m = dict(d0, id=0, name='m', labelnames=ln)
+        t = dict(d0, id=1, name='t', labelnames=[], help=d0['help'] + ' t')
+        x, y = (['x'], ['y']) if len(ln) == 1 else (['200', 'get'], ['200', 'post'])
+
+        def upd(w, mid, lv, v):
+            k = d0['kind']
+            return (['inc', w, mid, lv, v] if k == 'counter' else ['obs', w, mid, lv, v] if k != 'gauge'
+                    else ['set', w, mid, lv, v, 1000.0 + v])
+        for form in 'abcd':
+            for late in (False, True):
+                first = {'a': [upd(1, 0, y, 3.0)], 'b': [['child', 1, 0, y]], 'c': [['new', 1, 1], upd(1, 1, [], 3.0)],
+                         'd': [upd(1, 0, x, 3.0)]}[form]
+                ops = [['spawn', 0, 0], ['new', 0, 0], upd(0, 0, x, 5.0), ['fork', 0, 1]]
+                if late:
+                    ops += [upd(0, 0, ['z'] * len(ln), 2.0)]
+                ops += first + [['collect'], upd(0, 0, x, 7.0), upd(1, 0, y, 0.5), ['fork', 1, 2], ['child', 2, 0, ['v'] * len(ln)],
+                                ['collect'], ['dead', 2], ['dead', 1], ['collect']]
+                yield {'metrics': [m, t], 'ops': ops, 'tree': True}
+
+
 def cases(ctx):
     rng = ctx.rng
+    for c in tree_slice():
+        yield c
     # every gauge mode gets focused histories with 2-4 workers
     for rep in range(ctx.n(3, 40)):
         for mode in L.MODES:
             c = gen_case(rng, nworkers=rng.randrange(2, 5), focus=mode)
             yield to_multi(c) if rep == 1 else c
+            c = gen_tree_case(rng, focus=mode)
+            yield to_multi(c) if rep == 1 else c
     for _ in range(ctx.n(10 ** 6, 10 ** 7)):        # until the time budget
         if ctx.thorough and rng.random() < 0.25:
             yield real_case(rng)
+            continue
+        if rng.random() < 0.25:
+            c = gen_tree_case(rng, focus=rng.choice(L.MODES) if rng.random() < 0.6 else None, wild=rng.random() < 0.15)
+            yield to_multi(c) if rng.random() < 0.3 else c
             continue
         c = gen_case(rng, wild=rng.random() < 0.25, focus=rng.choice(L.MODES) if rng.random() < 0.3 else None)
         yield to_multi(c) if rng.random() < 0.2 else c
@@ -202,11 +410,14 @@ def to_multi(case):
             ops += [['dead', op[1]], ['collect']]
         elif k == 'merge':
             ops.append(['collect'])
-        elif k in ('collect', 'dead'):
+        elif k in ('collect', 'dead', 'fork'):
             ops.append(op)
         else:
             ops.append([k, op[1], idmap[op[2]]] + list(op[3:]))
-    return {'metrics': cat, 'ops': ops, 'multi': True}
+    out = {'metrics': cat, 'ops': ops, 'multi': True}
+    if case.get('tree'):
+        out['tree'] = True
+    return out
 
 
 def _multi_ok(case):
@@ -266,6 +477,7 @@ def multi_replay(case, obs):
             for b in _bounds(d):
                 ftab[e_float(b)] = floatToGoString(b)
     steps, kinds, pid = [], [], {}
+    forked = any(op[0] == 'fork' for op in case['ops'])
     for op in case['ops']:
         k = op[0]
         if k == 'spawn':
@@ -274,6 +486,10 @@ def multi_replay(case, obs):
             kinds.append('start')
         elif k == 'new':
             kinds.append(None)
+        elif k == 'fork':
+            pid[op[2]] = str(op[3])
+            steps.append((Sym('fork'), pid[op[1]], str(op[3])))
+            kinds.append('fork')
         elif k == 'dead':
             steps.append((Sym('dead'), str(op[1])))
             kinds.append('dead')
@@ -295,7 +511,7 @@ def multi_replay(case, obs):
     oi = di = 0
     last_dir = None
     for i, (kd, o) in enumerate(zip(kinds, obs)):
-        if kd in ('start', 'dead'):
+        if kd in ('start', 'dead', 'fork'):
             oi += 1
         elif kd == 'call':
             mo = outs[oi]
@@ -314,7 +530,9 @@ def multi_replay(case, obs):
             if sorted(md) != sorted(rd):
                 return 'collect at op %d: the directory holds %r, the model directory %r' % (i, sorted(rd), sorted(md))
             for base in rd:
-                if rd[base] != md[base]:
+                # after a fork the re-initialised value objects are listed in their creation order by the library and
+                # family by family by the model (model/MultiFork.v): the entries of a file are compared as a set there
+                if (sorted(rd[base]) != sorted(md[base])) if forked else (rd[base] != md[base]):
                     return 'collect at op %d: file %s holds %r, the model file %r' % (i, base, rd[base], md[base])
             last_dir = (o, dirs[di - 1])
     if last_dir is not None:
@@ -386,10 +604,23 @@ def resolve(case, obs):
     """the shape the oracle and the model side expect: settime spelled as the set it stands for and, for a real-process
     case, the pids the run produced put in"""
     case = dict(case, ops=[norm_op(op) for op in case['ops']])
-    if not case.get('real') or isinstance(obs, dict):
+    if isinstance(obs, dict) or not (case.get('real') or case.get('tree')):
         return case
     ops = []
     pid = {}
+    if case.get('tree'):
+        for op, o in zip(case['ops'], obs):
+            if op[0] == 'spawn':
+                pid[op[1]] = o.get('pid')
+                ops.append(['spawn', op[1], o.get('pid')])
+            elif op[0] == 'fork':
+                pid[op[2]] = o.get('pid')
+                ops.append(['fork', op[1], op[2], o.get('pid')])
+            elif op[0] == 'dead':
+                ops.append(['dead', pid.get(op[1])])
+            else:
+                ops.append(op)
+        return dict(case, ops=ops, tree=False, resolved_tree=True)
     for op, o in zip(case['ops'], obs):
         if op[0] == 'spawn':
             pid[op[1]] = o.get('pid')
@@ -405,7 +636,7 @@ _last = [None, None]
 
 
 def impl(case):
-    obs = L.run_history(case, fork='workers' if case.get('real') else False)
+    obs = L.run_history(case, fork='tree' if case.get('tree') else 'workers' if case.get('real') else False)
     _last[0], _last[1] = json.dumps(case, sort_keys=True), obs
     return obs
 
@@ -485,6 +716,8 @@ class Oracle:
         self.totals = {}                 # (name, labelitems) -> dict of cells for counters/summaries/histograms
         self.gauges = {}                 # (name, labelitems) -> {pid: [value, ts]}
         self.decl = {}                   # name -> declaration first used
+        self.held = {}                   # worker -> {(metric id, label values): True}: the value-holding objects of its process
+        self.pending = set()             # forked workers that have not performed a metric operation since their fork
 
     def labels(self, d, lv):
         return tuple(sorted(zip(d['labelnames'], lv)))
@@ -492,6 +725,7 @@ class Oracle:
     def touch(self, w, d, lv):
         """the series exists in worker w's process (metric object or child created)"""
         self.decl.setdefault(d['name'], d)
+        self.held.setdefault(w, {})[(d['id'], tuple(lv))] = True
         key = (d['name'], self.labels(d, lv))
         if d['kind'] == 'gauge':
             return self.gauges.setdefault(key, {}).setdefault(self.pid[w], [0.0, 0.0])
@@ -500,6 +734,17 @@ class Oracle:
             for b in self.bounds(d):
                 cell['b'].setdefault(b, 0.0)
         return cell
+
+    def first_value_operation(self, w, d, op):
+        """constructing a labelled metric, or labels() for a child the process already holds, reaches no value object"""
+        if op[0] == 'new':
+            return not d['labelnames']
+        if op[0] == 'child':
+            return (d['id'], tuple(op[3])) not in self.held.get(w, {})
+        return True
+
+    def declared(self):
+        return {name: list(d['labelnames']) for name, d in self.decl.items()}
 
     @staticmethod
     def bounds(d):
@@ -513,6 +758,15 @@ class Oracle:
         kind = op[0]
         if kind in ('spawn', 'restart', 'setpid'):
             self.pid[op[1]] = op[2]
+            if kind != 'setpid':
+                self.held[op[1]] = {}
+                self.pending.discard(op[1])
+        elif kind == 'fork':
+            # ['fork', parent, w, pid]: a new process that holds a copy of every metric object of its parent; nothing is
+            # written until it performs a metric operation
+            self.pid[op[2]] = op[3]
+            self.held[op[2]] = dict(self.held.get(op[1], {}))
+            self.pending.add(op[2])
         elif kind in ('dead', 'collect_vanish'):
             for (name, _ls), per in self.gauges.items():
                 if self.decl[name]['mode'] in L.LIVE:
@@ -521,6 +775,14 @@ class Oracle:
             pass
         else:
             w, d = op[1], self.cat[op[2]]
+            if w in self.pending and self.first_value_operation(w, d, op):
+                # the first operation of a forked process that reaches a value object: the process finds its identity
+                # changed and starts every series it inherited afresh, at 0, under ITS pid (its history begins here)
+                self.pending.discard(w)
+                for mid, lv in list(self.held[w]):
+                    self.touch(w, self.cat[mid], list(lv))
+            if w in self.pending and kind == 'child':
+                return          # labels() for a child the process holds already: no value object is reached
             if kind == 'new':
                 if not d['labelnames']:
                     self.touch(w, d, [])
@@ -601,7 +863,7 @@ class Oracle:
         return fams
 
 
-def check_fams(exp, fams):
+def check_fams(exp, fams, declared=None):
     """compare the collector's families with the expectation; -> None or a description"""
     got = {}
     for name, typ, help_, samples in fams:
@@ -610,6 +872,18 @@ def check_fams(exp, fams):
         ss = {}
         for sn, ls, v in samples:
             ls = dict(ls)
+            if declared is not None and name in declared and name in exp:
+                # label sets are preserved: every sample carries exactly the declared label names (+ le on a histogram
+                # bucket, + pid on a gauge reported per process)
+                extra = set()
+                if exp[name][0] == 'histogram' and sn == name + '_bucket':
+                    extra = {'le'}
+                elif exp[name][0] == 'gauge' and 'pid' in ls and 'pid' not in declared[name]:
+                    extra = {'pid'}
+                if set(ls) - extra != set(declared[name]) or not extra <= set(ls):
+                    return ('sample %s%r of family %r carries the label names %r, the metric was declared with %r%s'
+                            % (sn, sorted(ls.items()), name, sorted(ls), declared[name],
+                               ' (+ %s)' % '/'.join(sorted(extra)) if extra else ''))
             if sn.endswith('_bucket') and 'le' in ls:
                 try:
                     b = float(ls.pop('le'))
@@ -662,7 +936,7 @@ def direct(case, obs):
             return 'op %d %r raised %s: %s' % (i, op, o['exc'], o.get('msg'))
         orc.apply(op)
         if 'fams' in o:
-            r = check_fams(orc.expected(), o['fams'])
+            r = check_fams(orc.expected(), o['fams'], orc.declared())
             if r:
                 return 'at op %d (%s): %s' % (i, op[0], r)
         if op[0] in ('dead', 'collect_vanish') and 'before' in o:
@@ -691,6 +965,11 @@ def nontrivial(case, obs):
 def classify(case, obs):
     if case.get('real'):
         return ['real_process_case'] + classify(resolve(case, obs), obs)
+    if case.get('tree') and isinstance(obs, dict):
+        return ['process_tree_case', 'harness_error']
+    if case.get('tree'):
+        return ['process_tree_case', 'real_forks=%d' % min(6, sum(1 for op in case['ops'] if op[0] == 'fork'))] + \
+            tree_marks(case) + [k for k in classify(resolve(case, obs), obs) if not k.startswith('workers=')]
     ks = ['workers=%d' % sum(1 for op in case['ops'] if op[0] == 'spawn')]
     if case.get('multi'):
         ks.append('multi_history_case')
@@ -711,6 +990,14 @@ def classify(case, obs):
                 elif entries:
                     modes.add(t)
     ks += ['seen:' + m for m in sorted(modes)]
+    used = {op[2] for op in case['ops'] if op[0] in ('obs', 'child') and len(op) > 2}
+    for d in case['metrics']:
+        if d['kind'] == 'histogram' and d['labelnames'] and d['id'] in used:
+            after = [n for n in d['labelnames'] if n > 'le']
+            before = [n for n in d['labelnames'] if n < 'le']
+            ks.append('histogram_labels:' + ('both_sides_of_le' if after and before else 'after_le' if after else 'before_le'))
+            nsets = len({tuple(op[3]) for op in case['ops'] if op[0] in ('obs', 'child') and op[2] == d['id']})
+            ks.append('histogram_label_sets:' + ('1' if nsets == 1 else '2-3' if nsets <= 3 else '4+'))
     if any(op[0] in ('dead', 'collect_vanish') for op in case['ops']):
         ks.append('has_dead')
     for op, o in zip(case['ops'], obs):
@@ -724,12 +1011,64 @@ def classify(case, obs):
     return sorted(set(ks))
 
 
+def tree_marks(case):
+    """what the first operation of each forked worker is"""
+    cat = {d['id']: d for d in case['metrics']}
+    ks = set()
+    fresh, held, used = set(), {0: set()}, {0: set()}
+    acted_since = {}
+    for op in case['ops']:
+        k = op[0]
+        if k == 'fork':
+            fresh.add(op[2])
+            held[op[2]] = set(held.get(op[1], ()))
+            used[op[2]] = set(used.get(op[1], ()))
+            acted_since[op[2]] = False
+        elif k in ('new', 'child', 'inc', 'dec', 'set', 'settime', 'obs'):
+            w, d = op[1], cat[op[2]]
+            for f in fresh:
+                if f != w:
+                    acted_since[f] = True
+            lv = tuple(op[3]) if k != 'new' else ()
+            if w in fresh and not (k == 'new' and d['labelnames']):
+                fresh.discard(w)
+                tk = (d['kind'], d.get('mode'))
+                if k == 'new':
+                    what = 'constructs_new_metric'
+                elif (d['id'], lv) not in held[w]:
+                    what = 'constructs_new_labels_child'
+                else:
+                    what = 'updates_inherited_child'
+                ks.add('fork_first_op:' + what)
+                if what != 'updates_inherited_child' and tk in used[w]:
+                    ks.add('fork_first_op_constructs_in_open_file:' + (d['kind'] if d['kind'] != 'gauge' else 'gauge_' + d['mode']))
+                if acted_since.get(w):
+                    ks.add('fork_first_op_after_other_processes_acted')
+            if not (k == 'new' and d['labelnames']):
+                held.setdefault(w, set()).add((d['id'], lv))
+                used.setdefault(w, set()).add((d['kind'], d.get('mode')))
+    return sorted(ks)
+
+
 def _valid(case):
     """keep a shrunk history well-formed: spawn before use, new before update"""
     alive, made = set(), set()
+    tree = bool(case.get('tree'))
+    parent = {}
     for op in case['ops']:
         if op[0] == 'spawn':
             alive.add(op[1])
+        elif op[0] == 'fork':
+            if not tree or op[1] not in alive or op[2] in alive:
+                return False
+            alive.add(op[2])
+            parent[op[2]] = op[1]
+            made |= {(op[2], m) for w, m in made if w == op[1]}
+        elif tree and op[0] == 'dead':
+            if op[1] not in alive or op[1] == 0 or op[1] in parent.values():
+                return False
+            alive.discard(op[1])
+            parent.pop(op[1], None)
         elif op[0] in ('dead', 'collect', 'merge', 'collect_vanish'):
             continue
         else:
@@ -743,7 +1082,7 @@ def _valid(case):
 
 
 def shrinks(case):
-    if case.get('real'):
+    if case.get('real') or case.get('resolved_tree'):
         return
     ops = case['ops']
     n = len(ops)
